@@ -93,7 +93,7 @@ func init() {
 func Select(site string, hasDefault bool, cases ...SelCase) int {
 	s := active.Load()
 	var g *G
-	if s != nil {
+	if s != nil && s.Opts.Mode == ModeSched {
 		g = s.me()
 	}
 	n := len(cases)
